@@ -1,8 +1,11 @@
-(* Props/C05.v — C05: any altered byte is detected; no read succeeds with different content. *)
-From PNA Require Import Base Crc32 BaseFacts Crc32Facts.
+(* Props/C05.v — C05: any altered byte is detected; no read succeeds with different content.
+   Chunk level (this file, growing): a single altered byte in the type, data or CRC field of a
+   chunk always fails that chunk's CRC check; an altered length byte re-frames the stream and is
+   accepted only on an explicit 32-bit CRC coincidence (which no argument about the code can
+   exclude: the universal statement of the property is true up to that 2^-32 event). *)
+From PNA Require Import Base Crc32 Chunk ArchiveRun BaseFacts Crc32Facts ChunkFacts.
 Open Scope N_scope.
 
-(* the checksum of type+data changes whenever exactly one of their bytes changes *)
 Theorem C05_crc32_detects_single_byte :
   forall p b b' q, b <> b' -> crc32 (p ++ b :: q) <> crc32 (p ++ b' :: q).
 Proof. exact crc32_single_byte. Qed.
@@ -13,3 +16,28 @@ Theorem C05_crc32_is_32_bit : forall l, crc32 l < 2 ^ 32.
 Proof. exact crc32_w32. Qed.
 Check C05_crc32_is_32_bit : forall l, crc32 l < 2 ^ 32.
 Print Assumptions C05_crc32_is_32_bit.
+
+Theorem C05_altered_chunk_byte_detected :
+  forall c i m, wf_chunk c -> (4 <= i < length (ser_chunk c))%nat -> 0 < m < 256 ->
+  forall rest, read_chunk_stream (xor_at (ser_chunk c ++ rest) i m) = Err InvalidData.
+Proof. exact read_chunk_altered. Qed.
+Check C05_altered_chunk_byte_detected :
+  forall c i m, wf_chunk c -> (4 <= i < length (ser_chunk c))%nat -> 0 < m < 256 ->
+  forall rest, read_chunk_stream (xor_at (ser_chunk c ++ rest) i m) = Err InvalidData.
+Print Assumptions C05_altered_chunk_byte_detected.
+
+Theorem C05_altered_length_byte_needs_crc_coincidence :
+  forall c i m rest c' r',
+  wf_chunk c -> (i < 4)%nat -> 0 < m < 256 ->
+  read_chunk_stream (xor_at (ser_chunk c ++ rest) i m) = Ok (c', r') ->
+  let tail := cdata c ++ be32 (chunk_crc c) ++ rest in
+  crc_coincidence c rest (len (cdata c')) /\
+  cty c' = cty c /\ cdata c' = firstn (length (cdata c')) tail /\
+  r' = skipn (length (cdata c') + 4) tail.
+Proof. exact read_chunk_altered_len. Qed.
+Print Assumptions C05_altered_length_byte_needs_crc_coincidence.
+
+(* the slice reader is the same function, so everything above holds for it too *)
+Theorem C05_slice_reader_same : forall bs, read_chunk_slice bs = read_chunk_stream bs.
+Proof. exact read_chunk_slice_eq. Qed.
+Print Assumptions C05_slice_reader_same.
